@@ -29,7 +29,9 @@ Lemma triple_require' a b : triple a (require b) (fun _ a1 => b = true /\ a1 = a
 Proof. apply triple_require. intros H. split; [exact H|reflexivity]. Qed.
 
 (* pointwise goals: push every known characterisation through, then boolean arithmetic *)
-Ltac pw_rewrite :=
+Ltac pw_unfold := idtac.   (* hook: later files add their own pointwise definitions *)
+Ltac pw_rewrite1 :=
+  pw_unfold;
   repeat match goal with
          | H : same ?a _ |- context [?a _] => rewrite !H
          end;
@@ -38,14 +40,19 @@ Ltac pw_rewrite :=
   repeat match goal with
          | H : cshape ?a _ _ |- context [?a (Slot _ _)] => rewrite !H
          end.
-Ltac pw := intros; pw_rewrite; cbn [loc_eqb]; lia.
+Ltac pw_rewrite := repeat progress pw_rewrite1.
+Ltac pw_split :=
+  repeat (match goal with
+          | |- context [Nat.eqb ?x ?y] => destruct (Nat.eqb_spec x y); [try first [subst x|subst y]|]
+          end; pw_rewrite).
+Ltac pw := intros; pw_rewrite; cbn [loc_eqb]; first [lia | pw_split; cbn [andb orb negb]; lia].
 Ltac pwl l := intros l; destruct l as [?c ?i|?k|?k]; pw.
 
 Lemma cshape_of_cpost c a P n' a' : cpost c a P n' a' -> cshape a' c n'.
 Proof. intros [_ H] i. pw. Qed.
 
 Lemma reshape_id a c n : cshape a c n -> same (reshape a c n) a.
-Proof. intros H. pwl l. destruct (Nat.eqb_spec c0 c) as [->|]; pw. Qed.
+Proof. intros H l. destruct l as [c0 i|k|k]; [destruct (Nat.eqb_spec c0 c) as [->|]|..]; pw. Qed.
 
 Lemma reshape_reshape a c n1 n2 : same (reshape (reshape a c n1) c n2) (reshape a c n2).
 Proof. pwl l. Qed.
@@ -84,7 +91,7 @@ Lemma legal_constructs c hs : forall lo a,
   (forall h, In h hs -> bsrc_ok a h = true) ->
   legal a (constructs c lo hs) (fun l => a l || in_range c lo (lo + length hs) l).
 Proof.
-  induction hs as [|h t IH]; intros lo a H Hs; cbn [constructs length].
+  induction hs as [|h t IH]; intros lo a H Hs; cbn [constructs length] in *.
   - eapply legal_post; [apply legal_nil|]. pwl l.
   - eapply legal_cons; [apply legal_construct; [apply H; lia|apply Hs; left; reflexivity]|].
     eapply legal_post; [apply IH|].
@@ -149,7 +156,7 @@ Lemma spec_emplace_all c hs : forall a n,
   triple a (emplace_all cap c n hs) (cpost c a (fun n' => n' = n + length hs /\ n' <= cap)).
 Proof.
   induction hs as [|h t IH]; intros a n Hc Hle Hs; cbn [emplace_all length].
-  - apply triple_ret. split; [lia|]. apply same_sym. rewrite Nat.add_0_r. apply reshape_id. exact Hc.
+  - apply triple_ret. split; [lia|]. apply same_sym. rewrite ?Nat.add_0_r. apply reshape_id. exact Hc.
   - eapply triple_bind; [apply spec_emplace_back; [exact Hc|exact Hle|apply Hs; left; reflexivity]|].
     intros n1 a1 [[-> Hn1] H1].
     eapply triple_conseq.
@@ -164,7 +171,7 @@ Lemma spec_push_all c hs : forall a n,
   triple a (push_all cap c n hs) (cpost c a (fun n' => n' = n + length hs /\ n' <= cap)).
 Proof.
   induction hs as [|h t IH]; intros a n Hc Hle Hs; cbn [push_all length].
-  - apply triple_ret. split; [lia|]. apply same_sym. rewrite Nat.add_0_r. apply reshape_id. exact Hc.
+  - apply triple_ret. split; [lia|]. apply same_sym. rewrite ?Nat.add_0_r. apply reshape_id. exact Hc.
   - eapply triple_bind; [apply spec_push_back; [exact Hc|exact Hle|apply Hs; left; reflexivity]|].
     intros n1 a1 [[-> Hn1] H1].
     eapply triple_conseq.
@@ -332,7 +339,7 @@ Lemma spec_emplace_defaults c iters : forall a n,
   triple a (emplace_defaults fl cap c n iters) (cpost c a (fun n' => n' = n + iters /\ n' <= cap)).
 Proof.
   induction iters as [|k IH]; intros a n Hc Hle Ht1; cbn [emplace_defaults].
-  - apply triple_ret. split; [lia|]. apply same_sym. rewrite Nat.add_0_r. apply reshape_id. exact Hc.
+  - apply triple_ret. split; [lia|]. apply same_sym. rewrite ?Nat.add_0_r. apply reshape_id. exact Hc.
   - eapply triple_bind.
     { eapply triple_emit_legal with (Q := fun _ a2 => same a2 (fupd a (Temp 1) true)).
       - apply legal_construct; [exact Ht1|reflexivity].
